@@ -237,6 +237,17 @@ Proof.
   econstructor; eassumption.
 Qed.
 
+Lemma R_obj_inv x y :
+  R x y -> is_obj x = true ->
+  exists n fs1 fs2, objv x = Some (n, fs1) /\ objv y = Some (n, fs2) /\ Rflds fs1 fs2.
+Proof.
+  intros H Ho. destruct (R_shape x y H) as [| | |v1 v2 d1 d2 H1 H2 _ _|v1 v2 t1 t2 xs1 xs2 H1 H2 _ _ _ _|v1 v2 n fs1 fs2 H1 H2 Hf];
+    try discriminate Ho.
+  - destruct v1; try discriminate H1; discriminate Ho.
+  - destruct v1; try discriminate H1; discriminate Ho.
+  - exists n, fs1, fs2. repeat split; assumption.
+Qed.
+
 (** ** Unary computation rules *)
 Definition scalar (v : gv) : bool :=
   match v with VNil | VBool _ _ | VInt _ _ _ | VFloat _ _ _ | VStr _ _ | VDec _ => true | _ => false end.
@@ -373,4 +384,292 @@ Proof.
     pose proof (tgt_nonobj a Ha Eo) as Na. pose proof (tgt_nonobj b Hb Eo') as Nb.
     rewrite (tgt_not_ptr a Na), (tgt_not_ptr b Nb) in H. exact H.
 Qed.
+
+(** ** Object-like values: an object, or an accepted pointer to one *)
+Lemma is_obj_not_ptr x : is_obj x = true -> is_ptr x = false.
+Proof. destruct x; try discriminate; reflexivity. Qed.
+
+Lemma objlike_cases a : pok a -> is_obj (tgt a) = true -> a = tgt a \/ a = VPtr (Some (tgt a)).
+Proof. intros Hp Ho. destruct (tgt_obj_cases a Hp Ho) as [E|[E _]]; [left|right]; exact E. Qed.
+
+Lemma objlike_convert_number a : pok a -> is_obj (tgt a) = true -> convert_number a = a.
+Proof.
+  intros Hp Ho. destruct (objlike_cases a Hp Ho) as [E|E]; rewrite E.
+  - rewrite convert_number_cnv by (apply is_obj_not_ptr; exact Ho).
+    destruct (tgt a); try discriminate Ho; reflexivity.
+  - apply convert_number_ptr_obj. exact Ho.
+Qed.
+
+Lemma objlike_cus a : pok a -> is_obj (tgt a) = true -> convert_unless_string a = a.
+Proof.
+  intros Hp Ho. destruct (cus_cases a) as [E|E]; [exact E|]. rewrite E. apply objlike_convert_number; assumption.
+Qed.
+
+Lemma Rv_convert_number a b : Rv a b -> Rv (convert_number a) (convert_number b).
+Proof.
+  intros H. destruct (Rv_cases a b H) as [H0|[Oa [Ob [H0 [Pa [Pb _]]]]]].
+  - apply R_Rv. apply R_convert_number. exact H0.
+  - rewrite (objlike_convert_number a Pa Oa), (objlike_convert_number b Pb Ob). exact H.
+Qed.
+
+Lemma Rv_convert_unless_string a b : Rv a b -> Rv (convert_unless_string a) (convert_unless_string b).
+Proof.
+  intros H. destruct (Rv_cases a b H) as [H0|[Oa [Ob [H0 [Pa [Pb _]]]]]].
+  - apply R_Rv. apply R_convert_unless_string. exact H0.
+  - rewrite (objlike_cus a Pa Oa), (objlike_cus b Pb Ob). exact H.
+Qed.
+
+(** ** nil-ness *)
+Lemma is_nil_numv v d : numv v = Some d -> is_nil v = false.
+Proof.
+  destruct v as [| | k nm z | | | | | | | | | |]; try discriminate; try reflexivity.
+  intros _. unfold is_nil; cbn. destruct (nk_unsigned k); reflexivity.
+Qed.
+
+Lemma is_nil_elems v x : elems_of v = Some x -> is_nil v = seq_nil v.
+Proof. destruct v; try discriminate; reflexivity. Qed.
+
+Lemma is_nil_objv v n fs : objv v = Some (n, fs) -> is_nil v = n.
+Proof.
+  destruct v as [| | | | | | | | |kt vt n0 kvs|fs0| |]; try discriminate; cbn [objv].
+  - destruct (mfields kvs); [|discriminate]. cbn. intros H; injection H as <- _. reflexivity.
+  - destruct (st && existsb nzw fs0); [|discriminate]. intros H; injection H as <- _. reflexivity.
+Qed.
+
+Lemma R_is_nil a b : R a b -> is_nil a = is_nil b.
+Proof.
+  intros H. destruct H as [|b0|s|v1 v2 d1 d2 H1 H2 _ _|v1 v2 t1 t2 xs1 xs2 H1 H2 Hn _ _ _|v1 v2 n fs1 fs2 H1 H2 _];
+    try reflexivity.
+  - rewrite (is_nil_numv _ _ H1), (is_nil_numv _ _ H2). reflexivity.
+  - rewrite (is_nil_elems _ _ H1), (is_nil_elems _ _ H2). exact Hn.
+  - rewrite (is_nil_objv _ _ _ H1), (is_nil_objv _ _ _ H2). reflexivity.
+Qed.
+
+Lemma objlike_is_nil a n fs : pok a -> objv (tgt a) = Some (n, fs) -> is_nil a = n.
+Proof.
+  intros Hp Ho. destruct (objlike_cases a Hp (is_obj_objv _ _ Ho)) as [E|E].
+  - rewrite E. apply (is_nil_objv _ _ _ Ho).
+  - rewrite E in Hp |- *. cbn in Hp. destruct Hp as [_ Hp].
+    destruct (tgt a) as [| | | | | | | | |kt vt n0 kvs|fs0| |]; try discriminate Ho; cbn [objv] in Ho.
+    + destruct Hp as [-> _]. destruct (mfields kvs); [|discriminate]. cbn in Ho. injection Ho as <- _. reflexivity.
+    + destruct (st && existsb nzw fs0); [|discriminate]. injection Ho as <- _. reflexivity.
+Qed.
+
+Lemma Rv_is_nil a b : Rv a b -> is_nil a = is_nil b.
+Proof.
+  intros H. destruct (Rv_cases a b H) as [H0|[Oa [Ob [H0 [Pa [Pb _]]]]]].
+  - apply R_is_nil. exact H0.
+  - destruct (R_obj_inv _ _ H0 Oa) as [n [fs1 [fs2 [H1 [H2 _]]]]].
+    rewrite (objlike_is_nil a n fs1 Pa H1), (objlike_is_nil b n fs2 Pb H2). reflexivity.
+Qed.
+
+(** ** Field lookup *)
+Lemma keq_fold k1 k2 name : keq k1 k2 -> equal_fold k1 name = equal_fold k2 name.
+Proof.
+  unfold keq. destruct st; intros H.
+  - unfold equal_fold. rewrite H. reflexivity.
+  - subst. reflexivity.
+Qed.
+
+Lemma flookup_rel name fs1 fs2 :
+  Rflds fs1 fs2 -> opt_rel Rf (flookup name fs1) (flookup name fs2).
+Proof.
+  induction 1 as [|[k1 v1] [k2 v2] r1 r2 [Hk Hv] Hr IH]; [exact I|].
+  cbn [fst snd] in Hk, Hv. cbn [flookup]. rewrite (keq_fold k1 k2 name Hk).
+  destruct (equal_fold k2 name); [exact Hv | exact IH].
+Qed.
+
+Lemma mkey_key_string k s : mkey k = Some s -> key_string k = Some s.
+Proof.
+  destruct k as [| | | | nm s0 | | | | | | | |]; try discriminate. destruct nm; cbn.
+  - destruct s0; [discriminate|]. intros H; exact H.
+  - intros H; exact H.
+Qed.
+
+Lemma map_lookup_flookup name kvs fs : mfields kvs = Some fs -> map_lookup_fold name kvs = flookup name fs.
+Proof.
+  revert fs. induction kvs as [|[k v] r IH]; intros fs H; cbn [mfields] in H.
+  - injection H as <-. reflexivity.
+  - destruct (mkey k) as [s|] eqn:Ek; [|discriminate]. destruct (mfields r) as [l|]; [|discriminate].
+    injection H as <-. cbn [map_lookup_fold flookup]. rewrite (mkey_key_string k s Ek).
+    destruct (equal_fold s name); [reflexivity | apply IH; reflexivity].
+Qed.
+
+Lemma struct_lookup_flookup name fs : struct_lookup_fold name fs = flookup name (sfields fs).
+Proof.
+  induction fs as [|[[[n e] i] v] r IH]; [reflexivity|].
+  cbn [struct_lookup_fold sfields]. destruct e; cbn [andb]; [|exact IH].
+  cbn [flookup]. destruct (equal_fold n name); [reflexivity | exact IH].
+Qed.
+
+(** how an element of an array hands out a field: number conversion for a
+    map, number-unless-string conversion for a struct *)
+Definition conv_of (x : gv) : gv -> gv :=
+  match x with VStruct _ => convert_unless_string | _ => convert_number end.
+
+Lemma Rf_cus a b : Rf a b -> R (convert_unless_string a) (convert_unless_string b).
+Proof.
+  unfold Rf, fcv. intros [H _]. destruct st; [exact H | apply R_convert_unless_string; exact H].
+Qed.
+
+Lemma Rf_cn a b : Rf a b -> R (convert_number a) (convert_number b).
+Proof.
+  unfold Rf, fcv. intros [H Hn]. destruct st.
+  - destruct (Hn eq_refl) as [Na Nb]. unfold nn in Na, Nb. rewrite Na, Nb. exact H.
+  - apply R_convert_number. exact H.
+Qed.
+
+Lemma Rf_conv x1 x2 n1 n2 fs1 fs2 a b :
+  objv x1 = Some (n1, fs1) -> objv x2 = Some (n2, fs2) -> Rf a b -> R (conv_of x1 a) (conv_of x2 b).
+Proof.
+  intros H1 H2 H.
+  destruct x1 as [| | | | | | | | |kt1 vt1 m1 kvs1|fs01| |]; try discriminate H1;
+  destruct x2 as [| | | | | | | | |kt2 vt2 m2 kvs2|fs02| |]; try discriminate H2; cbn [conv_of].
+  - apply Rf_cn. exact H.
+  - cbn [objv] in H2. destruct st eqn:Est; [|discriminate H2].
+    destruct H as [H Hn]. unfold fcv in H. rewrite Est in H. destruct (Hn Est) as [Na Nb]. unfold nn in Na. rewrite Na. exact H.
+  - cbn [objv] in H1. destruct st eqn:Est; [|discriminate H1].
+    destruct H as [H Hn]. unfold fcv in H. rewrite Est in H. destruct (Hn Est) as [Na Nb]. unfold nn in Nb. rewrite Nb. exact H.
+  - apply Rf_cus. exact H.
+Qed.
+
+Lemma gfn_obj name b x n fs :
+  objv x = Some (n, fs) -> get_field_by_name name (mkRv b x) = option_map (conv_of x) (flookup name fs).
+Proof.
+  destruct x as [| | | | | | | | |kt vt m kvs|fs0| |]; try discriminate; cbn [objv conv_of].
+  - destruct (mfields kvs) as [l|] eqn:El; [|discriminate]. cbn. intros H; injection H as _ <-.
+    rewrite field_by_name_map, (map_lookup_flookup name kvs l El). reflexivity.
+  - destruct (st && existsb nzw fs0); [|discriminate]. intros H; injection H as _ <-.
+    rewrite field_by_name_struct, struct_lookup_flookup. reflexivity.
+Qed.
+
+Lemma gfn_nonobj name b x : is_ptr x = false -> is_obj x = false -> get_field_by_name name (mkRv b x) = None.
+Proof.
+  intros Hp Ho. unfold get_field_by_name.
+  destruct (is_empty_value (mkRv b x)); [reflexivity|].
+  destruct x as [| | k nm z | | | | | | | | | |]; try discriminate Hp; try discriminate Ho; destruct b; try reflexivity.
+  unfold deref1, rkind; cbn. destruct (nk_unsigned k); reflexivity.
+Qed.
+
+Lemma gfn_rel name b1 b2 x y :
+  R x y -> opt_rel R (get_field_by_name name (mkRv b1 x)) (get_field_by_name name (mkRv b2 y)).
+Proof.
+  intros H. destruct (R_not_ptr x y H) as [Px Py]. pose proof (R_is_obj x y H) as Ho.
+  destruct (R_shape x y H) as [| | |v1 v2 d1 d2 H1 H2 _ _|v1 v2 t1 t2 xs1 xs2 H1 H2 _ _ _ _|v1 v2 n fs1 fs2 H1 H2 Hf].
+  - rewrite !gfn_nonobj by reflexivity. exact I.
+  - rewrite !gfn_nonobj by reflexivity. exact I.
+  - rewrite !gfn_nonobj by reflexivity. exact I.
+  - assert (O1 : is_obj v1 = false) by (destruct v1; try discriminate H1; reflexivity).
+    rewrite O1 in Ho. rewrite !gfn_nonobj by (try assumption; symmetry; assumption). exact I.
+  - assert (O1 : is_obj v1 = false) by (destruct v1; try discriminate H1; reflexivity).
+    rewrite O1 in Ho. rewrite !gfn_nonobj by (try assumption; symmetry; assumption). exact I.
+  - rewrite (gfn_obj name b1 v1 n fs1 H1), (gfn_obj name b2 v2 n fs2 H2).
+    pose proof (flookup_rel name fs1 fs2 Hf) as Hl.
+    destruct (flookup name fs1) as [a|], (flookup name fs2) as [c|]; cbn in Hl |- *; try contradiction; [|exact I].
+    apply (Rf_conv v1 v2 n n fs1 fs2 a c H1 H2 Hl).
+Qed.
+
+Lemma filter_map_rel name t1 t2 xs ys :
+  Forall2 R xs ys ->
+  Forall2 R (filter_map (fun x => get_field_by_name name (slot t1 x)) xs)
+            (filter_map (fun x => get_field_by_name name (slot t2 x)) ys).
+Proof.
+  induction 1 as [|x y xs ys Hxy Hr IH]; [constructor|].
+  cbn [filter_map]. pose proof (gfn_rel name (ety_eqb t1 EAny) (ety_eqb t2 EAny) x y Hxy) as Hf.
+  change (slot t1 x) with (mkRv (ety_eqb t1 EAny) x). change (slot t2 y) with (mkRv (ety_eqb t2 EAny) y).
+  destruct (get_field_by_name name (mkRv (ety_eqb t1 EAny) x)) as [a|],
+           (get_field_by_name name (mkRv (ety_eqb t2 EAny) y)) as [c|]; cbn in Hf; try contradiction.
+  - constructor; assumption.
+  - exact IH.
+Qed.
+
+(** ** One key *)
+Lemma do_ident_scalar name a : scalar a = true -> do_ident name a = Err EKeyNotFound.
+Proof.
+  intros Hs. unfold do_ident. rewrite deref_eta.
+  assert (Hp : is_ptr a = false) by (destruct a; try discriminate Hs; reflexivity).
+  rewrite (tgt_not_ptr a Hp). cbn [rv_v].
+  assert (Hg : get_values_by_name name a = Err EKeyNotFound).
+  { unfold get_values_by_name. destruct (is_empty_value (value_of a)); [reflexivity|].
+    rewrite deref_eta, (tgt_not_ptr a Hp). cbn [rv_v].
+    destruct a; try discriminate Hs; reflexivity. }
+  destruct a; try discriminate Hs; exact Hg.
+Qed.
+
+Lemma do_ident_seq name v t xs : elems_of v = Some (t, xs) -> do_ident name v = project name t xs.
+Proof.
+  destruct v; try discriminate; cbn [elems_of]; intros H; injection H as <- <-; destruct xs; reflexivity.
+Qed.
+
+Lemma do_ident_objlike name a n fs :
+  pok a -> objv (tgt a) = Some (n, fs) ->
+  do_ident name a = match flookup name fs with Some x => Ok (convert_unless_string x) | None => Err EKeyNotFound end.
+Proof.
+  intros Hp Ho. pose proof (objlike_cases a Hp (is_obj_objv _ _ Ho)) as Hc.
+  unfold do_ident. rewrite deref_eta. cbn [rv_v].
+  destruct (tgt a) as [| | | | | | | | |kt vt m kvs|fs0| |] eqn:Et; try discriminate Ho; cbn [objv] in Ho.
+  - destruct (mfields kvs) as [l|] eqn:El; [|discriminate]. cbn in Ho. injection Ho as _ <-.
+    rewrite (map_lookup_flookup name kvs l El). reflexivity.
+  - destruct (st && existsb nzw fs0); [|discriminate]. injection Ho as _ <-.
+    unfold get_values_by_name.
+    assert (He : is_empty_value (value_of a) = false) by (destruct Hc as [-> | ->]; reflexivity).
+    rewrite He, deref_eta, Et. cbn [rv_v].
+    rewrite field_by_name_struct, struct_lookup_flookup.
+    destruct (flookup name (sfields fs0)); reflexivity.
+Qed.
+
+Lemma head_test (A : Type) (x : gv) (yes no : A) :
+  is_ptr x = false ->
+  match x with
+  | VDec _ => no
+  | _ => match kind_of x with KdStruct | KdMap => yes | _ => no end
+  end = if is_obj x then yes else no.
+Proof.
+  destruct x as [| | k nm z | | | | | | | | | |]; intros H; try reflexivity; try discriminate H.
+  cbn. destruct (nk_unsigned k); reflexivity.
+Qed.
+
+Lemma project_rel name t1 t2 xs ys :
+  Forall2 R xs ys -> orel Rv (project name t1 xs) (project name t2 ys).
+Proof.
+  intros H. pose proof (filter_map_rel name t1 t2 xs ys H) as Hf.
+  destruct H as [|x0 y0 xs ys H0 Hr]; [exact I|].
+  unfold project.
+  destruct (R_not_ptr x0 y0 H0) as [Px Py].
+  rewrite (slot_kind t1 x0 (not_ptr_is _ Px)), (slot_val t1 x0 (not_ptr_is _ Px)).
+  rewrite (slot_kind t2 y0 (not_ptr_is _ Py)), (slot_val t2 y0 (not_ptr_is _ Py)).
+  rewrite (head_test _ x0 _ _ Px), (head_test _ y0 _ _ Py), (R_is_obj x0 y0 H0).
+  destruct (is_obj y0); [|exact I].
+  destruct Hf as [|a c l1 l2 Hac Hl]; [exact I|].
+  cbn [orel]. apply R_Rv. eapply R_seq; try reflexivity.
+  - intros E; discriminate E.
+  - intros E; discriminate E.
+  - constructor; assumption.
+Qed.
+
+Theorem do_ident_rel name a b : Rv a b -> orel Rv (do_ident name a) (do_ident name b).
+Proof.
+  intros H. destruct (Rv_cases a b H) as [H0|[Oa [Ob [H0 [Pa [Pb _]]]]]].
+  - destruct (R_shape a b H0) as [| | |v1 v2 d1 d2 H1 H2 _ _|v1 v2 t1 t2 xs1 xs2 H1 H2 _ _ _ Hxs|v1 v2 n fs1 fs2 H1 H2 Hf].
+    + rewrite !do_ident_scalar by reflexivity. exact I.
+    + rewrite !do_ident_scalar by reflexivity. exact I.
+    + rewrite !do_ident_scalar by reflexivity. exact I.
+    + rewrite !do_ident_scalar; [exact I | |].
+      * destruct v2; try discriminate H2; reflexivity.
+      * destruct v1; try discriminate H1; reflexivity.
+    + rewrite (do_ident_seq name v1 t1 xs1 H1), (do_ident_seq name v2 t2 xs2 H2).
+      apply project_rel. exact Hxs.
+    + destruct (R_not_ptr _ _ H0) as [P1 P2].
+      rewrite (do_ident_objlike name v1 n fs1), (do_ident_objlike name v2 n fs2);
+        try (apply pok_not_ptr; assumption); try (rewrite tgt_not_ptr by assumption; assumption).
+      pose proof (flookup_rel name fs1 fs2 Hf) as Hl.
+      destruct (flookup name fs1) as [x|], (flookup name fs2) as [y|]; cbn in Hl |- *; try contradiction; [|exact I].
+      apply R_Rv. apply Rf_cus. exact Hl.
+  - destruct (R_obj_inv _ _ H0 Oa) as [n [fs1 [fs2 [H1 [H2 Hf]]]]].
+    rewrite (do_ident_objlike name a n fs1 Pa H1), (do_ident_objlike name b n fs2 Pb H2).
+    pose proof (flookup_rel name fs1 fs2 Hf) as Hl.
+    destruct (flookup name fs1) as [x|], (flookup name fs2) as [y|]; cbn in Hl |- *; try contradiction; [|exact I].
+    apply R_Rv. apply Rf_cus. exact Hl.
+Qed.
+
 End Mode.
